@@ -27,7 +27,7 @@ type HostileFileCase struct {
 	B    int             `json:"b,omitempty"`
 }
 
-var hostileFileMuts = []string{"bitflip", "byteset", "truncate", "len-larger", "len-smaller", "len-4gib", "len-indefinite", "deep-nesting", "many-nodes", "tag-zero", "long-tag",
+var hostileFileMuts = []string{"bitflip", "byteset", "truncate", "len-larger", "len-smaller", "len-4gib", "len-indefinite", "deep-nesting", "deep-nesting-definite", "many-nodes", "tag-zero", "long-tag",
 	"inner-len-lie", "duplicate-inner", "empty-inner", "random-tail", "giant-claimed-image", "zero-fill"}
 
 var hostileFileTargets = []string{"cardaccess", "sod", "com", "dg1", "dg2", "dg7", "dg11", "dg12", "dg13", "dg14", "dg15", "dg16", "cardsecurity"}
@@ -134,6 +134,19 @@ func mutateFile(orig []byte, mut string, a, b int, rng *core.Rng) []byte {
 		return append(append(append(tagBytes(outerTag), 0x80), inner...), 0, 0)
 	case "deep-nesting":
 		return chip.EncTLV(outerTag, nest(0x30, 40+a%200, []byte{0x04, 0x00}))
+	case "deep-nesting-definite":
+		// nesting far beyond any limit with definite lengths only, optionally under a few indefinite-length levels;
+		// as deep as a 64 KiB file allows
+		depth := []int{60, 120, 500, 2000, 5000, 9000, 14000}[a%7]
+		tag := []byte{0x30, 0x31, 0x61, 0x7C, 0xA0, 0x30, 0x70}[b%7]
+		body := nest(tag, depth, []byte{0x04, 0x00})
+		for i := 0; i < (b/7)%4*12; i++ {
+			body = append(append([]byte{tag, 0x80}, body...), 0, 0)
+		}
+		if len(body) > 65000 {
+			body = nest(tag, 14000, []byte{0x04, 0x00})
+		}
+		return chip.EncTLV(outerTag, body)
 	case "many-nodes":
 		return chip.EncTLV(outerTag, bytes.Repeat([]byte{0x04, 0x00}, 9000+a%6000))
 	case "tag-zero":
@@ -263,6 +276,29 @@ func (HostileFilesEngine) Run(prop string, ci any) *core.Outcome {
 	if d := m1.TotalAlloc - m0.TotalAlloc; d > 256<<20+uint64(total)*8192 {
 		out.Violate("C12", "alloc-out-of-proportion", sig, "reading a chip with %d bytes of files (byzantine %s, %s) allocated %d bytes", total, c.File, c.Mut, d)
 	}
+	// the constructor alone on the served bytes: allocation proportional to the input (a whole read has a large constant part)
+	{
+		var a0, a1 runtime.MemStats
+		runtime.ReadMemStats(&a0)
+		_, pan := directConstructor(c.File, served)
+		runtime.ReadMemStats(&a1)
+		if pan != nil {
+			out.Violate("C12", "panic-in-constructor", sig, "constructor for %s panics on the %d bytes the chip served (%s): %v", c.File, len(served), c.Mut, pan)
+		}
+		d := a1.TotalAlloc - a0.TotalAlloc
+		if d > constructorAllocBudget(len(served)) {
+			out.Violate("C12", "alloc-out-of-proportion", "constructor/"+sig, "constructor for %s allocated %d bytes for a %d-byte input (%s): %d bytes per input byte", c.File, d, len(served), c.Mut, d/uint64(max(1, len(served))))
+		}
+		if len(served) > 0 {
+			ratio := d / uint64(len(served))
+			switch {
+			case ratio >= 400:
+				out.Probe("constructor_alloc_ge_400_per_byte")
+			case ratio >= 100:
+				out.Probe("constructor_alloc_ge_100_per_byte")
+			}
+		}
+	}
 	// whatever came back must also survive export -> store -> offline verification without a crash
 	if r.Doc != nil {
 		if blob, err := r.Doc.ToCbor(); err == nil {
@@ -278,3 +314,6 @@ func (HostileFilesEngine) Run(prop string, ci any) *core.Outcome {
 	out.Key = fmt.Sprintf("%s|%s|%s", c.File, c.Mut, oc)
 	return out
 }
+
+// constructorAllocBudget: stated linear budget for one file constructor call: 1 MiB + 1 KiB per input byte.
+func constructorAllocBudget(n int) uint64 { return 1<<20 + uint64(n)*1024 }
